@@ -91,13 +91,13 @@ app_prop("C03", "ent,entgov,mixed", ["ent"],
     "Coq theorems over all histories of the enterprise model (messages, BeginBlock, governance parameter updates, fee unlocks): raising needs a whitelisted purchaser; a decision needs a current signer, a raised order and no earlier decision by that signer (decision signers of an order are pairwise distinct in every reachable state); the tally is exactly the stated rule for all valid parameters (Go's int()/uint64 casts proved harmless); status moves only nil->raised->accepted->completed or raised->rejected and terminal orders are bit-for-bit frozen; an order accepted before a BeginBlock is completed in it, crediting exactly its amount to locked[purchaser], totalLocked and supply, once. Replayed against real histories; the tally rule is also recomputed independently on the real application at every BeginBlock.",
     "Trusted: Coq kernel; hand-written enterprise+bank model and its agreement with x/enterprise as far as generated histories go. Bech32 spelling is not modelled: the double-decision-by-upper-case defect was repaired by a fix: commit and is exercised by a dedicated implementation-side scenario.",
     extra_q=["-entenum", 72], extra_t=["-entenum", 216])
-app_prop("C04", "efund,ent,fees", ["ent", "bank"],
+app_prop("C04", "efund,efund,fees", ["ent", "bank"],
     "Coq theorems: one inductive invariant over all enterprise histories - escrow balance = total locked = sum of locked entries, total spent = sum of spent entries, locked[a]+spent[a] = sum of a's completed orders, the escrow holds no other denomination - and the exact case split of the fee unlock (fee <= locked: unlock fee; locked < fee <= liquid+locked: unlock all; else nothing; a fee carrying another denomination makes the undelegation fail and changes nothing); messages and parameter updates leave the bank untouched; the escrow is a blocked recipient. App-level (props/C04app.v): no user transaction moves the escrow except by unlocking. Replayed against real histories; the books are recomputed on the real application after every operation.",
-    "Trusted: as C03; vesting accounts are outside the model.")
+    "Trusted: as C03; vesting accounts are outside the model.", quick_n=90)
 app_prop("C06", "fees,efund", ["result"],
     "Coq theorems: if CheckTx admits a transaction with top-level WRKChain (resp. BEACON) messages then the amount offered in the module's fee denomination equals exactly the sum of the registration / record / per-slot fees of those messages under the current parameters, and liquid + locked funds of the payer cover it - for every accompanying denomination, order and multiplicity (permutation-invariance and additivity proved); slot counts >= 2^63 are rejected. The two listed gaps are machine-checked witnesses (mixed WRKChain+BEACON; registry message nested in MsgExec). CheckTx results of the real application are compared with the model (error classes: wrong denom / insufficient / too much / exceeds max storage) and with an independent fee oracle.",
     "Trusted: as C03; fee decorators run only in CheckTx (ctx.IsCheckTx), which is what the property speaks about.", quick_n=60)
-app_prop("C13", "mixed,ent,reg,stream", ["ent", "wrk", "bcn", "str", "params"],
+app_prop("C13", "mixed,entgov,reg,stream", ["ent", "wrk", "bcn", "str", "params"],
     "Coq theorems: a message executes successfully only if its signer is entitled in the state in which it runs (whitelisted purchaser, current enterprise signer, registered owner, the stream's sender / receiver, the governance authority), recursively through MsgExec where every inner message runs for the grantee itself or for a granter whose grant exists at that point; a non-entitled message is an error; a transaction lacking valid signatures changes nothing; user transactions can never change parameters (no grant is ever issued by a module account: invariant). GetSigners fields are read from the source by the translator (wiring_get_signers). Replayed against real histories crossing message types with signers.",
     "Trusted: as C03; signature verification itself is the SDK's (one bit per transaction in the model).")
 app_prop("C14", "mixed,fees,ent", ["ent", "wrk", "bcn", "str", "params", "bank"],
@@ -127,3 +127,18 @@ PROPS["C20"] = {
     "level_note": "Trusted: Coq kernel; the hand-written pagination model and its agreement with the SDK as far as generated requests go; translator call graph is name-resolved (over-approximate).",
     "technique": "Coq proof over the modelled SDK pagination loops + source-derived call-graph closure + in-Coq differential check of every list query",
 }
+
+PROPS["C01"] = {
+    "model_targets": ["model/AppCheck.vo"],
+    "harness": [{"cmd": "twin", "quick": ["-n", 10, "-blocks", 6], "thorough": ["-n", 200, "-blocks", 8, "-all-crash-points"], "timeout": 14400}],
+    "trusted_base": APP_TRUSTED + ["runtime part (Go scheduler, CPU count, storage backend, IAVL, wall clock) is exercised, not proved: twin processes and crash/reopen runs of the real binary"],
+    "assumptions": ["CometBFT delivers the same transaction bytes and header times to every node"],
+    "level_text": "Coq theorems: crash/replay refinement of the node model - dropping the application at any point of a block (after BeginBlock, after any DeliverTx, after EndBlock) loses exactly the uncommitted state, the reopened node equals the last committed one and replaying the block yields the same committed state and the same per-transaction results; a crash after Commit loses nothing; the committed state after a block is a function of (committed state, block) only. Source-derived (call graph closure checked in Coq): the only wall-clock / map-range effects reachable from consensus entry points are four audited sites - the telemetry timer, the BEACON default submit time (proved unreachable: ValidateBasic rejects SubmitTime = 0 at every nesting depth), and the two max-slots map ranges (outcome proved invariant under permutation of the table). Runtime validation: every random history is executed in four processes (memdb; goleveldb with GOMAXPROCS=1 started 1.1 s later; goleveldb with crash + reopen at the chosen points; memdb) and app hashes and per-transaction (code, data, gas wanted, gas used) are compared byte for byte.",
+    "level_note": "PARTIAL: scheduler / CPU-count / storage-backend independence of the Go runtime and the SDK is sampled by twin executions, not proved. Listed finding C01 class 1 (restart-dependent GasUsed of transactions failing before the ante handler; SDK behaviour). Translator call graph is name-resolved from the AST (over-approximate); effects inside dependencies (cosmos-sdk, ibc-go) are not analysed.",
+    "technique": "Coq proof of the crash/replay refinement + source-derived effect/call-graph obligations checked in Coq + twin/restart executions of the real application",
+}
+
+app_prop("C15", "genesis,genesis,mixed", ["ent", "wrk", "bcn", "str", "bank", "params", "supplyq"],
+    "Coq theorems about the model of the four modules' genesis export/import: importing the exported document succeeds in every state satisfying the reachable-state invariants (parameters valid, enterprise escrow = total locked, stream escrow = sum of deposits); the imported state is observationally equal to the original (component by component: Leibniz-equal except the representation of absent totals and the grouping of records per registration), satisfies the whole application invariant again (in particular both registered invariants), and exporting it again gives the identical document - without any cap hypothesis; above the cap exactly the newest 20,000 records per registration are exported with recomputed, consistent counters; queues are rebuilt from the statuses in id order; and a bisimulation: every well-formed history has the same per-operation results and observationally equal states on the original chain and on the chain started from its export. On the real application every random history is interrupted at block boundaries by ExportAppStateAndValidators + InitChain on a fresh application with genesis invariants on; the model does the same re-import; observables, re-exported documents, registered invariants and two further blocks in lock-step with the original application are compared. Source-derived: enterprise and stream are initialised before crisis asserts invariants (wiring_genesis_order), export cap constants.",
+    "Trusted: as C03; bank/auth/gov genesis of the SDK is carried over as is in the model. The 20,001+-record scenario runs on the implementation only (thorough tier) - replaying 20,000 records in the in-Coq evaluator is too slow - the cap theorem covers it on the model side.",
+    quick_n=36, extra_t=["-bigexport"])
